@@ -15,6 +15,11 @@ def catchAllOrigin (ci : ClassInfo) (n : S) : Prop := ∃ f ∈ ci.fields, f.isC
 /-- the declared type of field `n` (first entry, as the generated loader resolves it) -/
 def tyOf (ftys : List (S × Ty)) (n : S) : Option Ty := (ftys.find? (fun p => p.1 == n)).map (·.2)
 
+/-- `NoneType` as a Union argument -/
+def isNoneArg : Ty → Bool
+  | .none => true
+  | _ => false
+
 /-- the fragment of the type grammar covered by `C05_sound`: every scalar kind, Any, Optional, list / set / frozenset /
 deque, variadic tuple, dict-like, dataclasses — nested arbitrarily -/
 inductive Frag : Ty → Prop
@@ -25,6 +30,10 @@ inductive Frag : Ty → Prop
   | vtuple (t : Ty) : Frag t → Frag (.vtuple t)
   | map (k : MapKind) (kt vt : Ty) : Frag kt → Frag vt → Frag (.map k kt vt)
   | cls (ci : ClassInfo) (ftys : List (S × Ty)) : (∀ p ∈ ftys, Frag p.2) → Frag (.cls ci ftys)
+  | union (ts : List Ty) : (∀ t ∈ ts, isNoneArg t = false → Frag t) → Frag (.union ts)
+  | tuple (ts : List Ty) : ts ≠ [] → (∀ t ∈ ts, acceptsNone t = false) → (∀ t ∈ ts, Frag t) → Frag (.tuple ts)
+  | typeddict (name : S) (fields : List (S × Ty × Bool)) : (fields.map (·.1)).Nodup → (∀ f ∈ fields, Frag f.2.1) →
+      Frag (.typeddict name fields)
 
 /-- value `y` is an instance of type `t` (exact runtime types; fields not provided by the document hold their declared
 default / `__post_init__` value, the catch-all field the captured pairs) -/
@@ -41,6 +50,15 @@ inductive Sound : Ty → PyVal → Prop
       (∀ p ∈ fs, fromDefault ci p.1 p.2 ∨ catchAllOrigin ci p.1 ∨ (tyOf ftys p.1).isSome = true) →
       (∀ p ∈ fs, ∀ t, tyOf ftys p.1 = some t → ¬ fromDefault ci p.1 p.2 → ¬ catchAllOrigin ci p.1 → Sound t p.2) →
       Sound (.cls ci ftys) (.inst ci fs)
+  | union (ts : List Ty) (t : Ty) (y : PyVal) : t ∈ ts → isNoneArg t = false → Sound t y → Sound (.union ts) y
+  | unionNone (ts : List Ty) : ts.any isNoneArg = true → Sound (.union ts) .none
+  | tuple (ts : List Ty) (xs : List PyVal) : xs.length = ts.length → (∀ p ∈ ts.zip xs, Sound p.1 p.2) →
+      Sound (.tuple ts) (.tuple xs)
+  | typeddict (name : S) (fields : List (S × Ty × Bool)) (ps : List (PyVal × PyVal)) :
+      (∀ p ∈ ps, ∃ f ∈ fields, p.1 = .str f.1) →
+      (∀ p ∈ ps, ∀ f ∈ fields, p.1 = .str f.1 → Sound f.2.1 p.2) →
+      (∀ f ∈ fields, f.2.2 = true → ∃ p ∈ ps, p.1 = .str f.1) →
+      Sound (.typeddict name fields) (.map .dict ps)
 
 theorem mapME_all {α β : Type} (f : α → Except LErr β) (P : β → Prop) (hf : ∀ x y, f x = .ok y → P y) :
     ∀ (xs : List α) (ys : List β), mapME f xs = .ok ys → ∀ y ∈ ys, P y
@@ -321,6 +339,231 @@ theorem loadJunkKeys_sound (eff : MetaCfg) (ci : ClassInfo) (ftys : List (S × T
     | int _ => simp [loadJunkKeys, rawE] at h
     | float _ => simp [loadJunkKeys, rawE] at h
 
+/-- what the first phase of the Union parser returns was produced by the parser of a non-dataclass member -/
+theorem loadUnionTry_origin (std : Std) (cfg : Option MetaCfg) (o : JVal) (y : PyVal) : ∀ (ts : List Ty) (r : LRes),
+    loadUnionTry std cfg ts o = some r → r = .ok y → ∃ t ∈ ts, isNoneArg t = false ∧ loadD std cfg t o = .ok y
+  | [], r, h, _ => by simp [loadUnionTry] at h
+  | t :: ts, r, h, hr => by
+    have hrec : ∀ r', loadUnionTry std cfg ts o = some r' → r' = .ok y →
+        ∃ t' ∈ t :: ts, isNoneArg t' = false ∧ loadD std cfg t' o = .ok y := by
+      intro r' h' hr'
+      obtain ⟨t', ht', hn', hl'⟩ := loadUnionTry_origin std cfg o y ts r' h' hr'
+      exact ⟨t', by simp [ht'], hn', hl'⟩
+    have hhere : ∀ (hn : isNoneArg t = false),
+        (match parserContains t o with
+          | none => some (rawE "TypeError")
+          | some true => some (loadD std cfg t o)
+          | some false => loadUnionTry std cfg ts o) = some r →
+        ∃ t' ∈ t :: ts, isNoneArg t' = false ∧ loadD std cfg t' o = .ok y := by
+      intro hn h'
+      split at h'
+      · simp only [Option.some.injEq] at h'; subst h'; simp [rawE] at hr
+      · simp only [Option.some.injEq] at h'; subst h'; exact ⟨t, by simp, hn, hr⟩
+      · exact hrec r h' hr
+    cases t with
+    | cls ci f => rw [loadUnionTry] at h; exact hrec r h hr
+    | none => rw [loadUnionTry] at h; exact hrec r h hr
+    | any =>
+      rw [loadUnionTry] at h
+      exact hhere rfl h
+      all_goals (intros; rename_i hh; cases hh)
+    | bool =>
+      rw [loadUnionTry] at h
+      exact hhere rfl h
+      all_goals (intros; rename_i hh; cases hh)
+    | int =>
+      rw [loadUnionTry] at h
+      exact hhere rfl h
+      all_goals (intros; rename_i hh; cases hh)
+    | float =>
+      rw [loadUnionTry] at h
+      exact hhere rfl h
+      all_goals (intros; rename_i hh; cases hh)
+    | str =>
+      rw [loadUnionTry] at h
+      exact hhere rfl h
+      all_goals (intros; rename_i hh; cases hh)
+    | bytes =>
+      rw [loadUnionTry] at h
+      exact hhere rfl h
+      all_goals (intros; rename_i hh; cases hh)
+    | bytearray =>
+      rw [loadUnionTry] at h
+      exact hhere rfl h
+      all_goals (intros; rename_i hh; cases hh)
+    | leaf k =>
+      rw [loadUnionTry] at h
+      exact hhere rfl h
+      all_goals (intros; rename_i hh; cases hh)
+    | timedelta =>
+      rw [loadUnionTry] at h
+      exact hhere rfl h
+      all_goals (intros; rename_i hh; cases hh)
+    | enum n ms =>
+      rw [loadUnionTry] at h
+      exact hhere rfl h
+      all_goals (intros; rename_i hh; cases hh)
+    | literal vs =>
+      rw [loadUnionTry] at h
+      exact hhere rfl h
+      all_goals (intros; rename_i hh; cases hh)
+    | optional t' =>
+      rw [loadUnionTry] at h
+      exact hhere rfl h
+      all_goals (intros; rename_i hh; cases hh)
+    | union ts' =>
+      rw [loadUnionTry] at h
+      exact hhere rfl h
+      all_goals (intros; rename_i hh; cases hh)
+    | seq k t' =>
+      rw [loadUnionTry] at h
+      exact hhere rfl h
+      all_goals (intros; rename_i hh; cases hh)
+    | tuple ts' =>
+      rw [loadUnionTry] at h
+      exact hhere rfl h
+      all_goals (intros; rename_i hh; cases hh)
+    | vtuple t' =>
+      rw [loadUnionTry] at h
+      exact hhere rfl h
+      all_goals (intros; rename_i hh; cases hh)
+    | map k kt vt =>
+      rw [loadUnionTry] at h
+      exact hhere rfl h
+      all_goals (intros; rename_i hh; cases hh)
+    | ntuple n fs =>
+      rw [loadUnionTry] at h
+      exact hhere rfl h
+      all_goals (intros; rename_i hh; cases hh)
+    | typeddict n fs =>
+      rw [loadUnionTry] at h
+      exact hhere rfl h
+      all_goals (intros; rename_i hh; cases hh)
+
+/-- what the tag dispatch returns was produced by the loader of a member dataclass -/
+theorem loadTagged_origin (std : Std) (cfg : Option MetaCfg) (tg : S) (o : JVal) (y : PyVal) : ∀ (ts : List Ty),
+    loadTagged std cfg tg ts o = .ok y → ∃ ci ftys, Ty.cls ci ftys ∈ ts ∧ loadD std cfg (.cls ci ftys) o = .ok y
+  | [], h => by simp [loadTagged, parseE] at h
+  | t :: ts, h => by
+    have hrec : loadTagged std cfg tg ts o = .ok y → ∃ ci ftys, Ty.cls ci ftys ∈ t :: ts ∧ loadD std cfg (.cls ci ftys) o = .ok y := by
+      intro h'
+      obtain ⟨ci, ftys, hm, hl⟩ := loadTagged_origin std cfg tg o y ts h'
+      exact ⟨ci, ftys, by simp [hm], hl⟩
+    cases t with
+    | cls ci ftys =>
+      rw [loadTagged] at h
+      split at h
+      · exact ⟨ci, ftys, by simp, by rw [loadD]; exact h⟩
+      · exact hrec h
+    | _ =>
+      rw [loadTagged] at h
+      exact hrec h
+      all_goals (intros; rename_i hh; cases hh)
+
+theorem loadZip_sound (std : Std) (cfg : Option MetaCfg) : ∀ (ts : List Ty) (xs : List JVal) (ys : List PyVal),
+    (∀ t ∈ ts, ∀ o z, loadD std cfg t o = .ok z → Sound t z) → ts.length ≤ xs.length →
+    loadZip std cfg ts xs = .ok ys → ys.length = ts.length ∧ ∀ p ∈ ts.zip ys, Sound p.1 p.2
+  | [], xs, ys, _, _, h => by
+    simp only [loadZip, pure, Except.pure, Except.ok.injEq] at h; subst h; simp
+  | t :: ts, [], ys, _, hl, _ => by simp at hl
+  | t :: ts, x :: xs, ys, ih, hl, h => by
+    simp only [loadZip, bind, Except.bind] at h
+    split at h
+    · simp at h
+    · next y hy =>
+      split at h
+      · simp at h
+      · next ys' hys =>
+        simp only [pure, Except.pure, Except.ok.injEq] at h; subst h
+        obtain ⟨h1, h2⟩ := loadZip_sound std cfg ts xs ys' (fun t' ht' => ih t' (by simp [ht'])) (by simpa using hl) hys
+        refine ⟨by simp [h1], ?_⟩
+        intro p hp
+        simp only [List.zip_cons_cons, List.mem_cons] at hp
+        rcases hp with rfl | hp
+        · exact ih t (by simp) x y hy
+        · exact h2 p hp
+
+theorem filter_all_length {α} (p : α → Bool) (l : List α) (h : ∀ a ∈ l, p a = true) : (l.filter p).length = l.length := by
+  rw [List.filter_eq_self.2 h]
+
+theorem loadTd_sound (std : Std) (cfg : Option MetaCfg) (kvs : List (S × JVal)) (all : List (S × Ty × Bool)) :
+    ∀ (fields : List (S × Ty × Bool)) (ps : List (PyVal × PyVal)),
+    (∀ f ∈ fields, ∀ o z, loadD std cfg f.2.1 o = .ok z → Sound f.2.1 z) →
+    (∀ f ∈ fields, f ∈ all) →
+    loadTd std cfg fields kvs = .ok ps →
+      (∀ p ∈ ps, ∃ f ∈ fields, p.1 = .str f.1 ∧ Sound f.2.1 p.2) ∧ (∀ f ∈ fields, f.2.2 = true → ∃ p ∈ ps, p.1 = .str f.1)
+  | [], ps, _, _, h => by
+    simp only [loadTd, pure, Except.pure, Except.ok.injEq] at h; subst h; simp
+  | (k, t, req) :: r, ps, ih, hall, h => by
+    rw [loadTd] at h
+    split at h
+    · next v hfind =>
+      simp only [bind, Except.bind] at h
+      split at h
+      · simp at h
+      · next y hy =>
+        split at h
+        · simp at h
+        · next ys hys =>
+          simp only [pure, Except.pure, Except.ok.injEq] at h; subst h
+          obtain ⟨h1, h2⟩ := loadTd_sound std cfg kvs all r ys (fun f hf => ih f (by simp [hf])) (fun f hf => hall f (by simp [hf])) hys
+          constructor
+          · intro p hp
+            rcases List.mem_cons.1 hp with rfl | hp
+            · exact ⟨(k, t, req), by simp, rfl, ih (k, t, req) (by simp) _ y hy⟩
+            · obtain ⟨f, hf, hk, hs⟩ := h1 p hp
+              exact ⟨f, by simp [hf], hk, hs⟩
+          · intro f hf hreq
+            rcases List.mem_cons.1 hf with rfl | hf
+            · exact ⟨(.str k, y), by simp, rfl⟩
+            · obtain ⟨p, hp, hk⟩ := h2 f hf hreq
+              exact ⟨p, by simp [hp], hk⟩
+    · split at h
+      · simp [parseE] at h
+      · next hreq =>
+        obtain ⟨h1, h2⟩ := loadTd_sound std cfg kvs all r ps (fun f hf => ih f (by simp [hf])) (fun f hf => hall f (by simp [hf])) h
+        constructor
+        · intro p hp
+          obtain ⟨f, hf, hk, hs⟩ := h1 p hp
+          exact ⟨f, by simp [hf], hk, hs⟩
+        · intro f hf hr
+          rcases List.mem_cons.1 hf with rfl | hf
+          · simp at hr; simp [hr] at hreq
+          · exact h2 f hf hr
+
+theorem jLen_jIter (o : JVal) (n : Nat) (xs : List JVal) (h1 : jLen o = some n) (h2 : jIter o = some xs) : xs.length = n := by
+  cases o <;> simp [jLen, jIter] at h1 h2 <;> (subst h1; subst h2; simp)
+
+theorem nodup_key_inj {α : Type} (key : α → S) : ∀ (l : List α), (l.map key).Nodup → ∀ a ∈ l, ∀ b ∈ l, key a = key b → a = b
+  | [], _, a, ha, _, _, _ => by simp at ha
+  | x :: r, hnd, a, ha, b, hb, hk => by
+    simp only [List.map_cons, List.nodup_cons] at hnd
+    rcases List.mem_cons.1 ha with ha' | ha'
+    · rcases List.mem_cons.1 hb with hb' | hb'
+      · rw [ha', hb']
+      · exfalso; apply hnd.1; rw [← ha', hk]; exact List.mem_map.2 ⟨b, hb', rfl⟩
+    · rcases List.mem_cons.1 hb with hb' | hb'
+      · exfalso; apply hnd.1; rw [← hb', ← hk]; exact List.mem_map.2 ⟨a, ha', rfl⟩
+      · exact nodup_key_inj key r hnd.2 a ha' b hb' hk
+
+theorem tdJunk_ok (fields : List (S × Ty × Bool)) (o : JVal) (y : PyVal) (h : tdJunk fields o = .ok y) :
+    y = .map .dict [] ∧ fields.any (fun f => f.2.2) = false := by
+  unfold tdJunk at h
+  split at h
+  · simp [parseE] at h
+  · next hany =>
+    refine ⟨?_, by simpa using hany⟩
+    split at h
+    · split at h
+      · simp [parseE] at h
+      · simp only [pure, Except.pure, Except.ok.injEq] at h; exact h.symm
+    · split at h
+      · simp [parseE] at h
+      · simp only [pure, Except.pure, Except.ok.injEq] at h; exact h.symm
+    · split at h
+      · simp only [pure, Except.pure, Except.ok.injEq] at h; exact h.symm
+      · simp [parseE] at h
+
 /-- **soundness over the fragment** -/
 theorem sound (std : Std) (cfg : Option MetaCfg) (t : Ty) (hf : Frag t) : ∀ (o : JVal) (y : PyVal),
     loadD std cfg t o = .ok y → Sound t y := by
@@ -407,5 +650,117 @@ theorem sound (std : Std) (cfg : Option MetaCfg) (t : Ty) (hf : Frag t) : ∀ (o
     | bool _ => simp [loadClassWith] at h
     | int _ => simp [loadClassWith] at h
     | float _ => simp [loadClassWith] at h
+  | union ts _ ih =>
+    intro o y h
+    rw [loadD] at h
+    split at h
+    · next hc =>
+      simp only [pure, Except.pure, Except.ok.injEq] at h; subst h
+      refine Sound.unionNone ts ?_
+      have hany := (Bool.and_eq_true_iff.1 hc).2
+      obtain ⟨t, ht, hm⟩ := List.any_eq_true.1 hany
+      exact List.any_eq_true.2 ⟨t, ht, by cases t <;> simp_all [isNoneArg]⟩
+    · split at h
+      · next r hr =>
+        obtain ⟨t, ht, hn, hl⟩ := loadUnionTry_origin std cfg o y ts r hr h
+        exact Sound.union ts t y ht hn (ih t ht hn o y hl)
+      · cases o with
+        | dict kvs =>
+          simp only at h
+          split at h
+          · simp [parseE] at h
+          · next tagv _ =>
+            cases tagv with
+            | str tg =>
+              simp only at h
+              obtain ⟨ci, ftys, hm, hl⟩ := loadTagged_origin std cfg tg _ y ts h
+              exact Sound.union ts _ y hm rfl (ih _ hm rfl _ y hl)
+            | null => simp [parseE] at h
+            | bool _ => simp [parseE] at h
+            | int _ => simp [parseE] at h
+            | float _ => simp [parseE] at h
+            | list _ => simp [rawE] at h
+            | dict _ => simp [rawE] at h
+        | null => simp [parseE] at h
+        | bool _ => simp [parseE] at h
+        | int _ => simp [parseE] at h
+        | float _ => simp [parseE] at h
+        | str _ => simp [parseE] at h
+        | list _ => simp [parseE] at h
+  | tuple ts hne hacc _ ih =>
+    intro o y h
+    rw [loadD] at h
+    split at h
+    · next n xs hn hx =>
+      have hemp : ts.isEmpty = false := by cases ts <;> simp_all
+      have hreq : (ts.filter (fun t => !acceptsNone t)).length = ts.length :=
+        filter_all_length _ _ (fun t ht => by simp [hacc t ht])
+      simp only [hemp, hreq, Bool.false_eq_true, if_false] at h
+      split at h
+      · next hc =>
+        simp only [bind, Except.bind] at h
+        split at h
+        · simp at h
+        · next ys hys =>
+          simp only [pure, Except.pure, Except.ok.injEq] at h; subst h
+          have hlen := jLen_jIter o n xs hn hx
+          have hle : ts.length ≤ xs.length := by
+            simp only [Bool.and_eq_true, decide_eq_true_eq] at hc; omega
+          obtain ⟨h1, h2⟩ := loadZip_sound std cfg ts xs ys ih hle hys
+          exact Sound.tuple ts ys h1 h2
+      · simp [parseE] at h
+    · simp [rawE] at h
+  | typeddict name fields hnd _ ih =>
+    intro o y h
+    have hjunk : tdJunk fields o = .ok y → Sound (.typeddict name fields) y := by
+      intro hj
+      obtain ⟨rfl, hany⟩ := tdJunk_ok fields o y hj
+      refine Sound.typeddict name fields [] (by simp) (by simp) ?_
+      intro f hf hr
+      have := List.any_eq_false.1 hany f hf
+      simp [hr] at this
+    cases o with
+    | dict kvs =>
+      rw [loadD] at h
+      split at h
+      · next ps hps =>
+        simp only [pure, Except.pure, Except.ok.injEq] at h; subst h
+        obtain ⟨h1, h2⟩ := loadTd_sound std cfg kvs fields fields ps ih (fun f hf => hf) hps
+        refine Sound.typeddict name fields ps ?_ ?_ h2
+        · intro p hp; obtain ⟨f, hf, hk, _⟩ := h1 p hp; exact ⟨f, hf, hk⟩
+        · intro p hp f hf hk
+          obtain ⟨f', hf', hk', hs⟩ := h1 p hp
+          have : f' = f := nodup_key_inj (fun g : S × Ty × Bool => g.1) fields hnd f' hf' f hf (by
+            rw [hk] at hk'; exact (PyVal.str.inj hk').symm)
+          subst this; exact hs
+      · next e hk =>
+        split at h
+        · simp [parseE] at h
+        · simp at h
+      · simp at h
+    | null =>
+      rw [loadD] at h
+      exact hjunk h
+      all_goals (intros; rename_i hh; cases hh)
+    | bool _ =>
+      rw [loadD] at h
+      exact hjunk h
+      all_goals (intros; rename_i hh; cases hh)
+    | int _ =>
+      rw [loadD] at h
+      exact hjunk h
+      all_goals (intros; rename_i hh; cases hh)
+    | float _ =>
+      rw [loadD] at h
+      exact hjunk h
+      all_goals (intros; rename_i hh; cases hh)
+    | str _ =>
+      rw [loadD] at h
+      exact hjunk h
+      all_goals (intros; rename_i hh; cases hh)
+    | list _ =>
+      rw [loadD] at h
+      exact hjunk h
+      all_goals (intros; rename_i hh; cases hh)
 
 end DW.Props.C05
